@@ -36,10 +36,14 @@ def run(check, mirror, tier):
     MODELS = [(re.compile(r"^format$|^std::fmt::format$|^alloc::fmt::format$"), m_format_stub),
               (re.compile(r"^<(dmntk_feel::)?Name as Clone>::clone$"), lambda ex, st, c, a, d: iter([(st, deref(ex, st, a[0]))]))] + fv.VALUE_MODELS
 
-    def setup(ex, st):
+    def setup(ex, st, fixed=None):
         has_ref = z3.Bool(ex.fresh_name("has_type_ref"))
         sel = ex.fresh_int(st, "u8", "type_name", constrain=False)
         ex.assume(st, z3.And(sel.e >= 0, sel.e < len(names)))
+        if fixed is None:
+            ex.assume(st, z3.Not(has_ref))
+        else:
+            ex.assume(st, z3.And(has_ref, sel.e == names.index(fixed)))
         tref = En("Option", z3.If(has_ref, z3.IntVal(1), z3.IntVal(0)), {"None": (), "Some": (StrV(None, choice=(sel.e, names)),)})
         vname = Opaque("Name", z3.IntVal(7))
         variable = Adt("struct", "Variable", (vname, tref))
@@ -94,8 +98,12 @@ def run(check, mirror, tier):
         d["entry"] = U.describe(m, inputs["_entry"], model_value)
         return d
 
-    decide(check, crate, "input_variable_closures", setup, post, replay_input, rb, models=MODELS, unwind=8, describe=desc,
-           budget_s=900, min_paths=9, timeout_ms=20000, known_predicates=KNOWN_PRED, prefer=lambda inp: U.replayable_pref(inp["_entry"]))
+    jobs = []
+    for fixed in [None] + names:
+        jobs.append(lambda c, fixed=fixed: decide(c, crate, "input_variable_closure/%s" % (fixed or "no_typeRef"), lambda ex, st: setup(ex, st, fixed), post, replay_input, rb,
+                                                  models=MODELS, unwind=8, describe=desc, budget_s=900, min_paths=2, timeout_ms=20000, known_predicates=KNOWN_PRED,
+                                                  prefer=lambda inp: U.replayable_pref(inp["_entry"])))
+    run_parallel(check, jobs)
 
 
 def replay_input(i, rb):
